@@ -909,33 +909,140 @@ static char c_loader_free (char **av) { int d = ai (av, 1); LIB (); NEED (d, T_L
 /* --- anonymous mappings */
 static char c_mmap_new (char **av) { int d = ai (av, 1), sz = ai (av, 2), e = ai (av, 3); LIB (); EMPTY (d); ERRARG (e, d);
 	psize n = (psize) (sz + 1) * 4096; ppointer r = p_mem_mmap (n, e_in (e)); e_out (e);
-	if (!r) return 'F'; put (d, T_MMAP, r); S[d].a = (long) n; return 'S'; }
+	if (!r) return 'F'; put (d, T_MMAP, r); S[d].a = (long) n; memset (r, 0xa5 ^ d, n); return 'S'; }
 static char c_mmap_free (char **av) { int d = ai (av, 1); LIB (); NEED (d, T_MMAP);
 	pboolean ok = p_mem_munmap (S[d].p, (psize) S[d].a, NULL); if (!ok) return 'F'; clr (d); return 'S'; }
 
-static const struct { const char *name; char (*fn) (char **); } CALLS[] = {
+
+/* ------------------------------------------------------------------------------------------
+ * value-level probes (C18: "objects that existed before the call remain valid and unchanged").
+ * After every call line the API-visible content of every slot object is read back (under ASan, with the tracker
+ * and the fault injection switched off, so that getters which allocate are transparent) and folded into a hash;
+ * the hash of a slot that held the same kind of object before the call must be the same afterwards unless the
+ * call is *allowed* to change that argument with the outcome it reported (column `may` of CALLS).
+ */
+static unsigned long long fnv (unsigned long long h, const void *p, size_t n) {
+	const unsigned char *b = p;
+	for (size_t i = 0; i < n; i++) { h ^= b[i]; h *= 1099511628211ULL; }
+	return h;
+}
+#define FNV0 1469598103934665603ULL
+static unsigned long long fnv_l (unsigned long long h, long long v) { return fnv (h, &v, sizeof v); }
+static unsigned long long fnv_s (unsigned long long h, const char *s) { return s ? fnv (fnv_l (h, 1), s, strlen (s) + 1) : fnv_l (h, 0); }
+static unsigned long long tree_h;
+static pboolean tree_visit (ppointer k, ppointer v, ppointer d) { tree_h = fnv_l (fnv_l (tree_h, (long long) (psize) k), (long long) (psize) v); return FALSE; }
+static const char *TYNAME[] = { "none", "str", "list", "strlist", "tree", "ht", "err", "ini", "hash", "dir", "dirent", "saddr", "sock",
+	"sem", "shm", "shmbuf", "mutex", "cond", "rwlock", "rwlockg", "spin", "prof", "thread", "tls", "loader", "mmap" };
+
+static unsigned long long content (int i) {
+	unsigned long long h = fnv_l (FNV0, S[i].t);
+	void *p = S[i].p;
+	switch (S[i].t) {
+	case T_STR: return fnv_s (h, p);
+	case T_LIST: { long n = 0; for (PList *c = p; c; c = c->next) { h = fnv_l (h, (long long) (psize) c->data); n++; }
+		return fnv_l (fnv_l (h, n), (long long) p_list_length (p)); }
+	case T_STRLIST: { for (PList *c = p; c; c = c->next) h = fnv_s (h, c->data); return fnv_l (h, (long long) p_list_length (p)); }
+	case T_TREE: tree_h = fnv_l (h, p_tree_get_nnodes (p)); tree_h = fnv_l (tree_h, p_tree_get_type (p)); p_tree_foreach (p, tree_visit, NULL);
+		for (long k = 0; k < 12; k++) tree_h = fnv_l (tree_h, (long long) (psize) p_tree_lookup (p, PTR (k)));
+		return tree_h;
+	case T_HT: { PList *ks = p_hash_table_keys (p), *vs = p_hash_table_values (p);
+		for (PList *c = ks; c; c = c->next) h = fnv_l (fnv_l (h, (long long) (psize) c->data), (long long) (psize) p_hash_table_lookup (p, c->data));
+		for (PList *c = vs; c; c = c->next) h = fnv_l (h, (long long) (psize) c->data);
+		h = fnv_l (fnv_l (h, (long long) p_list_length (ks)), (long long) p_list_length (vs));
+		static const long probe[] = { 0, 1, 2, 3, 5, 7, 55, 102, 203 };
+		for (size_t k = 0; k < sizeof probe / sizeof probe[0]; k++) h = fnv_l (h, (long long) (psize) p_hash_table_lookup (p, PTR (probe[k])));
+		p_list_free (ks); p_list_free (vs); return h; }
+	case T_ERR: return fnv_s (fnv_l (fnv_l (h, p_error_get_code (p)), p_error_get_native_code (p)), p_error_get_message (p));
+	case T_INI: { h = fnv_l (h, p_ini_file_is_parsed (p));
+		for (int s = 0; s < 8; s++) for (int k = 0; k < 8; k++) {
+			char sn[16], kn[16]; snprintf (sn, sizeof sn, "s%d", s); snprintf (kn, sizeof kn, "k%d", k);
+			if (!p_ini_file_is_key_exists (p, sn, kn)) continue;
+			pchar *v = p_ini_file_parameter_string (p, sn, kn, "?"); h = fnv_s (fnv_l (fnv_l (h, s), k), v); p_free (v); }
+		PList *secs = p_ini_file_sections (p);
+		for (PList *c = secs; c; c = c->next) { h = fnv_s (h, c->data);
+			PList *keys = p_ini_file_keys (p, c->data);
+			for (PList *q = keys; q; q = q->next) h = fnv_s (h, q->data);
+			p_list_foreach (keys, (PFunc) p_free, NULL); p_list_free (keys); }
+		p_list_foreach (secs, (PFunc) p_free, NULL); p_list_free (secs); return h; }
+	case T_DIR: { pchar *v = p_dir_get_path (p); h = fnv_s (h, v); p_free (v); return h; }
+	case T_DIRENT: { PDirEntry *e = p; return fnv_l (fnv_s (h, e->name), e->type); }
+	case T_SADDR: { pchar *v = p_socket_address_get_address (p); h = fnv_s (h, v); p_free (v);
+		h = fnv_l (fnv_l (h, p_socket_address_get_family (p)), p_socket_address_get_port (p));
+		h = fnv_l (fnv_l (h, (long long) p_socket_address_get_native_size (p)), p_socket_address_is_any (p));
+		return fnv_l (fnv_l (h, p_socket_address_get_flow_info (p)), p_socket_address_get_scope_id (p)); }
+	case T_SOCK: h = fnv_l (fnv_l (h, p_socket_get_fd (p)), p_socket_is_closed (p));
+		h = fnv_l (fnv_l (fnv_l (h, p_socket_get_family (p)), p_socket_get_type (p)), p_socket_get_protocol (p));
+		return fnv_l (fnv_l (h, p_socket_get_listen_backlog (p)), p_socket_get_blocking (p));
+	case T_SHM: h = fnv_l (h, (long long) p_shm_get_size (p));
+		return p_shm_get_address (p) ? fnv (h, p_shm_get_address (p), p_shm_get_size (p)) : h;
+	case T_SHMBUF: return fnv_l (fnv_l (h, (long long) p_shm_buffer_get_used_space (p, NULL)), (long long) p_shm_buffer_get_free_space (p, NULL));
+	case T_MMAP: return fnv (h, p, (size_t) S[i].a);
+	default: return h;      /* opaque objects (locks, semaphores, threads, loaders; hashes: see hash_check; TLS keys: reading one creates the native key) */
+	}
+}
+
+static struct { int t; unsigned long long h; } seen[NSLOT];
+static char chg[512];               /* what changed against the rules: call#:slot:type,... */
+static long ncall;
+
+static void probe_reset (void) { memset (seen, 0, sizeof seen); chg[0] = 0; ncall = 0; }
+
+/* `may`: space separated items  <arg index><outcome classes>  ("1SD": the slot named by argument 1 may change when the call
+ * reports S or D), "!shm": shared memory is written, every shm / shm buffer object may change.  Returns 1 when an object
+ * changed although the call was not allowed to change it. */
+static int probe_after (char **av, const char *may, char outcome) {
+	int bad = 0, on = a_on;
+	int allowed[NSLOT] = { 0 }, shm_all = 0;
+	ncall++;
+	if (!lib_inited) return 0;      /* between p_libsys_shutdown and the next p_libsys_init the getters that allocate cannot be used:
+	                                 * the objects are read back (and compared with their state before the shutdown) after the next init */
+	a_on = 0;
+	for (const char *q = may ? may : ""; *q; ) {
+		while (*q == ' ') q++;
+		if (!strncmp (q, "!shm", 4)) { shm_all = 1; q += 4; continue; }
+		if (*q >= '1' && *q <= '6') { int ix = *q - '0'; q++; int ok = 0;
+			while (*q && *q != ' ') { if (*q == outcome) ok = 1; q++; }
+			int sl = av[ix] ? ai (av, ix) : -1;
+			if (ok && OKS (sl)) allowed[sl] = 1; }
+		else if (*q) q++;
+	}
+	for (int i = 0; i < NSLOT; i++) {
+		unsigned long long h = S[i].t == T_NONE ? 0 : content (i);
+		if (seen[i].t != T_NONE && seen[i].t == S[i].t && seen[i].h != h && !allowed[i]
+		    && !(shm_all && (S[i].t == T_SHM || S[i].t == T_SHMBUF))) {
+			size_t L = strlen (chg);
+			if (L + 40 < sizeof chg) snprintf (chg + L, sizeof chg - L, "%s%ld:%d:%s", L ? "," : "", ncall, i, TYNAME[S[i].t]);
+			bad = 1;
+		}
+		seen[i].t = S[i].t; seen[i].h = h;
+	}
+	a_on = on;
+	return bad;
+}
+
+static const struct { const char *name; char (*fn) (char **); const char *may; } CALLS[] = {
 	{ "lib_init", c_lib_init }, { "lib_shutdown", c_lib_shutdown }, { "cur_thread", c_cur_thread }, { "sysfail", c_sysfail },
-	{ "strdup", c_strdup }, { "strchomp", c_strchomp }, { "strtok", c_strtok }, { "strtod", c_strtod }, { "str_free", c_str_free },
-	{ "list_new", c_list_new }, { "list_append", c_list_append }, { "list_prepend", c_list_prepend }, { "list_remove", c_list_remove },
+	{ "strdup", c_strdup }, { "strchomp", c_strchomp }, { "strtok", c_strtok, "1S" }, { "strtod", c_strtod }, { "str_free", c_str_free },
+	{ "list_new", c_list_new }, { "list_append", c_list_append, "1S" }, { "list_prepend", c_list_prepend, "1S" }, { "list_remove", c_list_remove, "1S" },
 	{ "list_free", c_list_free }, { "strlist_free", c_strlist_free },
-	{ "tree_new", c_tree_new }, { "tree_insert", c_tree_insert }, { "tree_remove", c_tree_remove }, { "tree_clear", c_tree_clear }, { "tree_free", c_tree_free },
-	{ "ht_new", c_ht_new }, { "ht_insert", c_ht_insert }, { "ht_remove", c_ht_remove }, { "ht_keys", c_ht_keys }, { "ht_values", c_ht_values },
+	{ "tree_new", c_tree_new }, { "tree_insert", c_tree_insert, "1S" }, { "tree_remove", c_tree_remove, "1S" }, { "tree_clear", c_tree_clear, "1S" }, { "tree_free", c_tree_free },
+	{ "ht_new", c_ht_new }, { "ht_insert", c_ht_insert, "1S" }, { "ht_remove", c_ht_remove, "1S" }, { "ht_keys", c_ht_keys }, { "ht_values", c_ht_values },
 	{ "ht_lbv", c_ht_lbv }, { "ht_free", c_ht_free },
-	{ "err_new", c_err_new }, { "err_new_literal", c_err_new_literal }, { "err_copy", c_err_copy }, { "err_set_error", c_err_set_error },
-	{ "err_set_message", c_err_set_message }, { "err_clear", c_err_clear }, { "err_free", c_err_free }, { "err_set_p", c_err_set_p },
-	{ "ini_new", c_ini_new }, { "ini_parse", c_ini_parse }, { "ini_sections", c_ini_sections }, { "ini_keys", c_ini_keys }, { "ini_string", c_ini_string },
+	{ "err_new", c_err_new }, { "err_new_literal", c_err_new_literal }, { "err_copy", c_err_copy }, { "err_set_error", c_err_set_error, "1SD" },
+	{ "err_set_message", c_err_set_message, "1SD" }, { "err_clear", c_err_clear, "1S" }, { "err_free", c_err_free }, { "err_set_p", c_err_set_p },
+	{ "ini_new", c_ini_new }, { "ini_parse", c_ini_parse, "1SD" }, { "ini_sections", c_ini_sections }, { "ini_keys", c_ini_keys }, { "ini_string", c_ini_string },
 	{ "ini_int", c_ini_int }, { "ini_double", c_ini_double }, { "ini_bool", c_ini_bool }, { "ini_list", c_ini_list }, { "ini_free", c_ini_free },
 	{ "hash_new", c_hash_new }, { "hash_update", c_hash_update }, { "hash_string", c_hash_string }, { "hash_reset", c_hash_reset }, { "hash_check", c_hash_check }, { "hash_free", c_hash_free },
 	{ "ipc_key", c_ipc_key }, { "ipc_tmpdir", c_ipc_tmpdir },
 	{ "dir_new", c_dir_new }, { "dir_next", c_dir_next }, { "dir_path", c_dir_path }, { "dir_rewind", c_dir_rewind }, { "dirent_free", c_dirent_free },
 	{ "dir_free", c_dir_free }, { "file_remove_missing", c_file_remove_missing },
 	{ "sa_new", c_sa_new }, { "sa_any", c_sa_any }, { "sa_loop", c_sa_loop }, { "sa_native", c_sa_native }, { "sa_addr", c_sa_addr }, { "sa_free", c_sa_free },
-	{ "sock_new", c_sock_new }, { "sock_bad", c_sock_bad }, { "sock_listen", c_sock_listen }, { "sock_connect", c_sock_connect },
+	{ "sock_new", c_sock_new }, { "sock_bad", c_sock_bad }, { "sock_listen", c_sock_listen, "1SF" }, { "sock_connect", c_sock_connect },
 	{ "sock_connect_refused", c_sock_connect_refused }, { "sock_connect_timeout", c_sock_connect_timeout }, { "sock_accept", c_sock_accept }, { "sock_local", c_sock_local }, { "sock_remote", c_sock_remote },
-	{ "sock_udp_echo", c_sock_udp_echo }, { "sock_close", c_sock_close }, { "sock_free", c_sock_free }, { "sock_from_fd", c_sock_from_fd },
+	{ "sock_udp_echo", c_sock_udp_echo }, { "sock_close", c_sock_close, "1SF" }, { "sock_free", c_sock_free }, { "sock_from_fd", c_sock_from_fd },
 	{ "sem_new", c_sem_new }, { "sem_cycle", c_sem_cycle }, { "sem_own", c_sem_own }, { "sem_free", c_sem_free },
-	{ "shm_new", c_shm_new }, { "shm_own", c_shm_own }, { "shm_cycle", c_shm_cycle }, { "shm_free", c_shm_free },
-	{ "shmbuf_new", c_shmbuf_new }, { "shmbuf_rw", c_shmbuf_rw }, { "shmbuf_own", c_shmbuf_own }, { "shmbuf_free", c_shmbuf_free },
+	{ "shm_new", c_shm_new }, { "shm_own", c_shm_own }, { "shm_cycle", c_shm_cycle, "!shm" }, { "shm_free", c_shm_free },
+	{ "shmbuf_new", c_shmbuf_new }, { "shmbuf_rw", c_shmbuf_rw, "!shm" }, { "shmbuf_own", c_shmbuf_own }, { "shmbuf_free", c_shmbuf_free },
 	{ "mutex_new", c_mutex_new }, { "mutex_free", c_mutex_free }, { "cond_new", c_cond_new }, { "cond_free", c_cond_free },
 	{ "rwlock_new", c_rwlock_new }, { "rwlock_free", c_rwlock_free }, { "rwlockg_new", c_rwlockg_new }, { "rwlockg_free", c_rwlockg_free },
 	{ "spin_new", c_spin_new }, { "spin_free", c_spin_free }, { "prof_new", c_prof_new }, { "prof_free", c_prof_free }, { "lock_cycle", c_lock_cycle },
@@ -966,7 +1073,10 @@ static char do_call (const char *line) {
 				for (char *q = mk; *q; q++) if (*q == ' ' || *q == '\t') *q = ',';
 				pthread_mutex_lock (&amx); tr_add ("[%s]", mk); pthread_mutex_unlock (&amx);
 			}
-			return CALLS[i].fn (av);
+			char r = CALLS[i].fn (av);
+			/* value-level probe of every slot object; a forbidden change turns the outcome class into 'X' */
+			if (probe_after (av, CALLS[i].may, r)) r = 'X';
+			return r;
 		}
 	return '?';
 }
@@ -1191,6 +1301,7 @@ static void seq_begin (long pid) {
 	w_closes = w_badclose = w_keys = 0; w_nmaps = 0; w_sems = 0;
 	a_idx = a_calls = a_badfree = 0; a_nlive = 0; f_mode = 0; trn = 0; if (tr) tr[0] = 0;
 	noutcomes = 0; outcomes[0] = 0; dl_pending = 0;
+	probe_reset ();
 	take_snap (&base_snap);
 	a_on = 1;
 }
@@ -1232,7 +1343,7 @@ static void run_scen_child (int si, const char *mode, long k, const char *mask, 
 	SCENARIOS[si].fn ();
 	a_on = 0;
 	counts (cnt, sizeof cnt, 1);
-	int n = snprintf (line, sizeof line, "=out=%s n=%ld calls=%ld closes=%ld %s trace=", outcomes, a_idx, a_calls, w_closes, cnt);
+	int n = snprintf (line, sizeof line, "=out=%s n=%ld calls=%ld closes=%ld %s chg=[%s] trace=", outcomes, a_idx, a_calls, w_closes, cnt, chg);
 	if (write (wfd, line, (size_t) n) < 0 || write (wfd, tr ? tr : "", trn) < 0 || write (wfd, "\n", 1) < 0) {}
 	names_remove ();
 	_exit (0);
@@ -1333,7 +1444,7 @@ int main (void) {
 			char cnt[512];
 			char r = do_call (copy + 5);
 			counts (cnt, sizeof cnt, 0);
-			if (r == '?') fprintf (out, "bad-op\n"); else fprintf (out, "%c %s\n", r, cnt);
+			if (r == '?') fprintf (out, "bad-op\n"); else if (r == 'X') fprintf (out, "X %s chg=[%s]\n", cnt, chg); else fprintf (out, "%c %s\n", r, cnt);
 		}
 		else if (!strcmp (tok[0], "end") && in_seq) {
 			char cnt[4096];
